@@ -94,8 +94,9 @@ def handlers : List (String × (List Sexp → String)) := [
     | _ => "bad-args"),
   ("c05.hyp", fun a => match a with
     | [x] => match parseStmt x with
-      | some s => toString (Sexp.list [Sexp.ofBool (fnSupported s), Sexp.ofBool (fnFrag2 s), Sexp.ofBool (fnDistinctKeys s),
-                                       Sexp.ofBool (fnNoJumpInHandlerOfTryWithFinally s), Sexp.ofBool (fnDistinctOwnerIds s)])
+      | some s => toString (Sexp.list [Sexp.ofBool (fnSupported s), Sexp.ofBool (fnFrag3 s), Sexp.ofBool (fnDistinctKeys3 s),
+                                       Sexp.ofBool (fnNoJumpInHandlerOfTryWithFinally s), Sexp.ofBool (fnDistinctOwnerIds s),
+                                       Sexp.ofBool (fnParsedShape s), Sexp.ofBool (fnFrag2 s)])
       | none => "bad-node"
     | _ => "bad-args"),
   ("c05.owners", fun a => match a with
